@@ -125,12 +125,18 @@ inductive ItemErr where
   | notNumber    -- DatasetError: could not convert
   deriving DecidableEq, Repr
 
+def itemLimit : Nat := 24
+
+/-- first step of `_convert_data_item`: None, '.', '' stand for the NULL value -/
+def normItem (null : Str) (x : Option Str) : Str :=
+  match x with
+  | none => null
+  | some t => if t = ['.'] || t = [] then null else t
+
 /-- `_convert_data_item(x, null_value, missing_data_token)`; `none` = pandas' padding. -/
 def convertItem (null missing : Str) (x : Option Str) : Except ItemErr Cell :=
-  let x1 : Str := match x with
-    | none => null
-    | some t => if t = ['.'] || t = [] then null else t
-  if x1.length > 24 then .error .tooLong
+  let x1 : Str := normItem null x
+  if x1.length > itemLimit then .error .tooLong
   else if x1 = missing then .ok .nan
   else match convertFortran x1 with
     | .ok v => .ok (.num v)
